@@ -543,8 +543,19 @@ func genC12(rng *rand.Rand) ACase {
 				p = randValue(rng, true)
 			}
 			pad := strings.Repeat("00", rng.Intn(4))
-			add("saddr", "0100"+hexUp([]byte(p))+pad)
-			exp["family"], exp["path"] = "unix", cutNul(p)
+			if rng.Intn(6) == 0 {
+				// abstract socket (sun_path[0] = NUL) or an unnamed one (all NUL): the path ends at the first NUL;
+				// what Data() reports for it is decided by the correspondence with the model
+				ab := "\x00" + p
+				if rng.Intn(3) == 0 {
+					ab = strings.Repeat("\x00", 1+rng.Intn(6))
+				}
+				add("saddr", "0100"+hexUp([]byte(ab))+pad)
+				exp["family"] = "unix"
+			} else {
+				add("saddr", "0100"+hexUp([]byte(p))+pad)
+				exp["family"], exp["path"] = "unix", cutNul(p)
+			}
 		}
 		absent = append(absent, "saddr")
 	case 7: // PROCTITLE
@@ -682,7 +693,13 @@ func corruptC04(rng *rand.Rand, c ACase) ACase {
 	i := strings.Index(line, "msg=") + 4
 	end := strings.Index(line[i:], ")") + i
 	hdr := []byte(line[i : end+1]) // audit(S.mmm:N)
-	switch rng.Intn(5) {
+	switch rng.Intn(6) {
+	case 5: // the 'type=NAME ' prefix is damaged: 'msg=' moves to a small offset (0..8) or the name is cut
+		rest := line[i-4:] // "msg=audit(...): body"
+		pre := []string{"", "t", "ty", "typ", "type", "type=", "type =", "type= ", "CALL ", "type ", "=====", "type=S", "type=SY", "type=1 ", "ype=SYSCALL ", "type=SYSCALL"}[rng.Intn(16)]
+		out := mkACase("line", 0, pre+rest)
+		out.Bad = true
+		return out
 	case 0: // truncate somewhere before ')', dropping the rest of the line
 		cut := rng.Intn(len(hdr) - 1)
 		out := mkACase("line", 0, line[:i]+string(hdr[:cut]))
@@ -938,6 +955,8 @@ func auparseFamily(ctx *Ctx) error {
 				res.Violate(common.Violation{Kind: "monitor", Clause: cl, Input: c, Impl: o.Out, Case: idx})
 			case ctx.Prop == "C04" && c.Hdr != nil && !c.Bad && !strings.HasPrefix(o.Panic, "repeated"):
 				res.Violate(common.Violation{Kind: "monitor", Clause: "C04: no message for a well-formed line: the parser panicked: " + o.Panic, Input: c, Impl: o.Out, Case: idx})
+			case ctx.Prop == "C04" && c.Bad && !strings.HasPrefix(o.Panic, "repeated"):
+				res.Violate(common.Violation{Kind: "monitor", Clause: "C04: a malformed header must yield an error and no message; the parser panicked: " + o.Panic, Input: c, Impl: o.Out, Case: idx})
 			case ctx.Prop == "C12" && c.Expect != nil && !strings.HasPrefix(o.Panic, "repeated"):
 				res.Violate(common.Violation{Kind: "monitor", Clause: "C12: Data() panicked on a kernel-formatted record: " + o.Panic, Input: c, Impl: o.Out, Case: idx})
 			default:
